@@ -158,7 +158,7 @@ def gen_op(rng, tree, scratch, counter):
     node = targets[expr]
     lazy = isinstance(node, LazyStackedTensorDict)
     kinds = ["names_new", "names_none", "names_same", "names_first", "inplace", "memmap", "memmap", "batch_size", "share", "relock", "nt_index", "rename",
-             "clear_device", "auto_device", "auto_batch_size", "index_write", "requires_grad", "make_memmap", "refine_names"]
+             "clear_device", "auto_device", "auto_batch_size", "index_write", "requires_grad", "make_memmap", "make_memmap_from_tensor", "refine_names"]
     if lazy:
         kinds += ["names_stackdim", "names_stackdim", "names_stackdim"]
     k = rng.choice(kinds)
@@ -224,6 +224,10 @@ def gen_op(rng, tree, scratch, counter):
         key = "mm" + str(counter[0]); counter[0] += 1
         shape = torch.Size(list(node.batch_size))
         return k, f"{expr}.make_memmap({key!r}, shape={list(shape)}, dtype=torch.float32)", lambda: node.make_memmap(key, shape=shape, dtype=torch.float32)
+    if k == "make_memmap_from_tensor":
+        key = "mt" + str(counter[0]); counter[0] += 1
+        t = torch.ones(*node.batch_size)
+        return k, f"{expr}.make_memmap_from_tensor({key!r}, torch.ones({list(node.batch_size)}))", lambda: node.make_memmap_from_tensor(key, t)
     if k == "refine_names":
         v = [rng.choice([None, ...]) for _ in range(1)] + [rng.choice(NAMES)]
         return k, f"{expr}.refine_names({v})", lambda: node.refine_names(*v)
